@@ -139,6 +139,10 @@ type c11World struct {
 	byAddr  map[address.Address]*c11Node
 	// approvals[coordinator ordinal][key] = ordinals of the jurors that approved
 	approvals map[int]map[node.Key]map[int]bool
+	// jurorApproved[juror][key] = how many proposals of that key the juror approved (a
+	// juror approves a key at most once; approvals are recorded per coordinator and key,
+	// so two rounds of ONE coordinator for one key pool their approvers)
+	jurorApproved map[int]map[node.Key]int
 	// reqView[coordinator ordinal] = view sizes when a pledge request (Key 0) arrived
 	admitted []c11Admission
 	fired    map[string]int
@@ -249,6 +253,13 @@ func (cl *c11Client) record(target address.Address, req Request, res Response, e
 			m[req.Key] = map[int]bool{}
 		}
 		m[req.Key][dst.ord] = true
+		if w.jurorApproved == nil {
+			w.jurorApproved = map[int]map[node.Key]int{}
+		}
+		if w.jurorApproved[dst.ord] == nil {
+			w.jurorApproved[dst.ord] = map[node.Key]int{}
+		}
+		w.jurorApproved[dst.ord][req.Key]++
 	}
 	if req.Key == 0 && err == nil && !late {
 		cl.lastOK = target
@@ -460,11 +471,11 @@ func runC11(t *testing.T, c c11Case, st *drv.Stats) (fail *drv.Failure) {
 							} else {
 								common = "disjoint-quorums:coordinators-views-differ"
 							}
-							for _, x := range a.approvers {
-								for _, y := range b.approvers {
-									if x == y {
-										common = "shared-juror"
-									}
+							// the two quorums share a juror exactly when some juror approved
+							// this key twice
+							for _, keys := range w.jurorApproved {
+								if keys[a.key] > 1 {
+									common = "shared-juror"
 								}
 							}
 						}
